@@ -948,3 +948,157 @@ func init() {
 		},
 	})
 }
+
+// ---- C16-l: a worker announces that it is done after it has published its results ----
+
+// storesSharedField: f (or a repo function it calls, bounded) stores into a field of
+// something it did not allocate itself (receiver, parameter, captured variable).
+func storesSharedField(f *ssa.Function, depth int, seen map[*ssa.Function]bool) bool {
+	if f == nil || len(f.Blocks) == 0 || seen[f] {
+		return false
+	}
+	seen[f] = true
+	for _, b := range f.Blocks {
+		for _, in := range b.Instrs {
+			switch x := in.(type) {
+			case *ssa.Store:
+				if fa, ok := x.Addr.(*ssa.FieldAddr); ok {
+					base := fa.X
+					for {
+						if u, ok := base.(*ssa.UnOp); ok && u.Op == token.MUL {
+							base = u.X
+							continue
+						}
+						if fa2, ok := base.(*ssa.FieldAddr); ok {
+							base = fa2.X
+							continue
+						}
+						break
+					}
+					switch base.(type) {
+					case *ssa.Parameter, *ssa.FreeVar:
+						return true
+					}
+				}
+			case ssa.CallInstruction:
+				if depth > 0 {
+					if sc := x.Common().StaticCallee(); sc != nil && isRepoPkgPath(fnPkgPath(sc)) && storesSharedField(sc, depth-1, seen) {
+						return true
+					}
+				}
+			}
+		}
+	}
+	return false
+}
+
+func init() {
+	register(&Rule{
+		ID: "C16-l", Template: "T2 never-follows (WaitGroup.Done is a worker's last effect)",
+		Doc: "Whoever waits for the workers sees everything they produced: in a function started with `go` (pipeline packages), nothing that writes state shared with the waiter runs after the worker's (*sync.WaitGroup).Done — no deferred call of a repo function that stores into a field of its receiver / parameter / captured variable is registered before the deferred Done (deferred calls run last-in first-out, so it would run after it), and no such call follows a plain Done(). A worker that signals Done and then publishes its blocks races with the waiter, which has already read the list: blocks and rows are lost in a fraction of the runs with more than one worker.",
+		Min: 1,
+		Run: func(p *Program, r *RuleResult) error {
+			if _, err := p.SSAFunc("pkg/ingest.(*Inserter).insertBlock"); err != nil {
+				return err
+			}
+			fns := p.FuncsInPkg("pkg/progress", "pkg/pbar", "pkg/diff", "pkg/merge", "pkg/ingest", "pkg/sorter", "pkg/api/utils", "pkg/api/client")
+			r.Analysed = len(fns)
+			isDone := func(c *ssa.CallCommon) bool {
+				f := c.StaticCallee()
+				if f == nil || f.Name() != "Done" {
+					return false
+				}
+				if recv := f.Signature.Recv(); recv != nil {
+					return strings.Contains(recv.Type().String(), "sync.WaitGroup")
+				}
+				return false
+			}
+			bodies := map[*ssa.Function]bool{}
+			for _, fn := range fns {
+				for _, b := range fn.Blocks {
+					for _, in := range b.Instrs {
+						g, ok := in.(*ssa.Go)
+						if !ok {
+							continue
+						}
+						if mc, ok := g.Call.Value.(*ssa.MakeClosure); ok {
+							if f, ok := mc.Fn.(*ssa.Function); ok {
+								bodies[f] = true
+							}
+						} else if sc := g.Call.StaticCallee(); sc != nil {
+							bodies[sc] = true
+						}
+					}
+				}
+			}
+			for _, fn := range sortedFuncs(bodies) {
+				if len(fn.Blocks) == 0 {
+					continue
+				}
+				var doneDefers, donePlain []ssa.Instruction
+				for _, b := range fn.Blocks {
+					for _, in := range b.Instrs {
+						switch x := in.(type) {
+						case *ssa.Defer:
+							if isDone(&x.Call) {
+								doneDefers = append(doneDefers, x)
+							}
+						case *ssa.Call:
+							if isDone(&x.Call) {
+								donePlain = append(donePlain, x)
+							}
+						}
+					}
+				}
+				if len(doneDefers)+len(donePlain) == 0 {
+					continue
+				}
+				key := funcName(fn) + "|done-last"
+				what := "nothing shared is written after the worker's WaitGroup.Done"
+				bad := ""
+				calleeOf := func(cc *ssa.CallCommon) *ssa.Function {
+					if mc, ok := cc.Value.(*ssa.MakeClosure); ok {
+						f, _ := mc.Fn.(*ssa.Function)
+						return f
+					}
+					return cc.StaticCallee()
+				}
+				for _, b := range fn.Blocks {
+					for _, in := range b.Instrs {
+						switch x := in.(type) {
+						case *ssa.Defer:
+							if isDone(&x.Call) {
+								continue
+							}
+							f := calleeOf(&x.Call)
+							if f == nil || !isRepoPkgPath(fnPkgPath(f)) || !storesSharedField(f, 2, map[*ssa.Function]bool{}) {
+								continue
+							}
+							for _, d := range doneDefers {
+								if _, reach := reachAfter(fn, x, d, nil, nil); reach {
+									bad = fmt.Sprintf("`defer %s` (%s) is registered before `defer Done()` (%s): it runs after Done, when the waiter may already have read what it writes", funcName(f), p.Rel(x.Pos()), p.Rel(d.Pos()))
+								}
+							}
+						case *ssa.Call:
+							f := calleeOf(&x.Call)
+							if f == nil || !isRepoPkgPath(fnPkgPath(f)) || !storesSharedField(f, 2, map[*ssa.Function]bool{}) {
+								continue
+							}
+							for _, d := range donePlain {
+								if _, reach := reachAfter(fn, d, x, nil, nil); reach {
+									bad = fmt.Sprintf("%s (%s) can run after Done() (%s)", funcName(f), p.Rel(x.Pos()), p.Rel(d.Pos()))
+								}
+							}
+						}
+					}
+				}
+				if bad != "" {
+					r.bad(key, p.Rel(fn.Pos()), what, bad)
+				} else {
+					r.ok(key, p.Rel(fn.Pos()), what)
+				}
+			}
+			return nil
+		},
+	})
+}
